@@ -190,6 +190,73 @@ M("C14-product-skips-children", "C14", "R14.2", PD,
             if len(c.parent_component_list) == 0:
                 c.check_state()""")
 
+# ---------------------------------------------------------------------------------------- guards and hidden state (all properties)
+def G(id, prop, guard, *edits):
+    """A construct the analyser cannot see through: the check must stop with ANALYSIS-ERROR (exit 2) naming the guard."""
+    es = [tuple(edits[i:i + 3]) for i in range(0, len(edits), 3)]
+    MUTANTS.append({"id": id, "prop": prop, "rule": guard, "edits": es, "exit2": True})
+
+
+G("G1-subclass-overrides-record-state", "C08", "G1", SP,
+  """    def export_dict_json_data(self):""",
+  """    def record_state(self, working=True):
+        self.state_record_list.append(self.state)
+
+    def export_dict_json_data(self):""")
+G("G1-subclass-overrides-perform", "C02", "G1", SP,
+  """    def export_dict_json_data(self):""",
+  """    def perform(self, time, seed=None, increase_component_error=1.0):
+        self.remaining_work_amount = self.remaining_work_amount - 1.0
+
+    def export_dict_json_data(self):""")
+G("G2-setattr-hook", "C01", "G2", TK,
+  """    def record_state(self, working=True):""",
+  """    def __setattr__(self, name, value):
+        object.__setattr__(self, name, value)
+
+    def record_state(self, working=True):""")
+G("G2-state-property", "C14", "G2", CP,
+  """    def check_state(self):""",
+  """    @property
+    def is_active(self):
+        return True
+
+    def check_state(self):""")
+G("G3-dict-update", "C09", "G3", TK,
+  """    def record_state(self, working=True):
+        \"\"\"Record current 'state' in 'state_record_list'.\"\"\"""",
+  """    def record_state(self, working=True):
+        \"\"\"Record current 'state' in 'state_record_list'.\"\"\"
+        self.__dict__['last_recorded'] = working""")
+M("R0-module-level-pert-cache", "C12", "R0.1", WF,
+  "import abc\n", "import abc\n_PERT_DONE = {}\n",
+  WF,
+  """        self.__set_est_eft_data(time)
+        self.__set_lst_lft_criticalpath_data(time)""",
+  """        if _PERT_DONE.get(id(self)) == time:
+            return
+        _PERT_DONE[id(self)] = time
+        self.__set_est_eft_data(time)
+        self.__set_lst_lft_criticalpath_data(time)""")
+M("R0-attribute-pert-cache", "C12", "R0.1", WF,
+  """        self.__set_est_eft_data(time)
+        self.__set_lst_lft_criticalpath_data(time)""",
+  """        if getattr(self, 'pert_done_at', None) == time:
+            return
+        self.pert_done_at = time
+        self.__set_est_eft_data(time)
+        self.__set_lst_lft_criticalpath_data(time)""")
+M("R0-lru-cache-on-sorter", "C11", "R0.1", PR,
+  "from enum import IntEnum\n", "from enum import IntEnum\nimport functools\n",
+  PR,
+  """def sort_task_list(task_list, priority_rule_mode=TaskPriorityRuleMode.TSLACK):""",
+  """@functools.lru_cache(maxsize=None)
+def sort_task_list(task_list, priority_rule_mode=TaskPriorityRuleMode.TSLACK):""")
+M("R0-class-level-ready-cache", "C01", "R0.1", WF,
+  """            input_task_list = none_task.input_task_list""",
+  """            BaseWorkflow.seen_ready_scan = True
+            input_task_list = none_task.input_task_list""")
+
 # ---------------------------------------------------------------------------------------- benign variants
 B("benign-reformat-only", ["C01", "C05", "C07", "C14"], WF, "import abc\n", "import abc\n\n")
 B("benign-gate-is-true", ["C01", "C05"], WF,
